@@ -95,9 +95,7 @@ def parse_smtlib(text: str):  # noqa: C901
         # Identifier
         elif char not in (' ', '\t', '\n'):
             token = [char]
-            while True:
-                if pos >= size:
-                    return
+            while pos < size:
                 char = text[pos]
                 pos += 1
                 if char in (' ', '\t', '\n'):
